@@ -78,6 +78,21 @@ fn touching(u: &Unk) -> Vec<E> {
             E::bin(BinOp::Eq, E::Rec(vec![("a".into(), E::attr(c.clone(), "n"))]), E::Rec(vec![("a".into(), E::Long(1))])),
             E::bin(BinOp::HasTag, p.clone(), E::ite(E::bin(BinOp::Eq, E::attr(c.clone(), "n"), E::Long(1)), E::str("t1"), E::str("zz"))),
             E::ext("isIpv4", vec![E::ite(E::bin(BinOp::Eq, E::attr(c.clone(), "n"), E::Long(1)), E::ext("ip", vec![E::str("10.0.0.1")]), E::ext("ip", vec![E::str("::1")]))]),
+            // every operator kind applied directly to the (untyped) unknown: each one errors for
+            // some completions and not for others (after seed C13-a1)
+            E::has(E::attr(c.clone(), "n"), "f"),
+            E::bin(BinOp::Eq, E::attr(E::attr(c.clone(), "n"), "f"), E::Long(1)),
+            E::Is(b(E::attr(c.clone(), "n")), "User".into()),
+            E::not(E::attr(c.clone(), "n")),
+            E::and(E::attr(c.clone(), "n"), E::Bool(true)),
+            E::or(E::Bool(false), E::attr(c.clone(), "n")),
+            E::ite(E::attr(c.clone(), "n"), E::Bool(true), E::Bool(false)),
+            E::bin(BinOp::Contains, E::attr(c.clone(), "n"), E::Long(1)),
+            E::IsEmpty(b(E::attr(c.clone(), "n"))),
+            E::bin(BinOp::HasTag, E::attr(c.clone(), "n"), E::str("t1")),
+            E::bin(BinOp::In, E::attr(c.clone(), "n"), E::Ent(gh())),
+            E::ext("isIpv4", vec![E::attr(c.clone(), "n")]),
+            E::ext("isInRange", vec![E::ext("ip", vec![E::str("10.0.0.1")]), E::attr(c.clone(), "n")]),
         ],
         Unk::EntityAttr => vec![
             E::bin(BinOp::Eq, E::attr(p.clone(), "nick"), E::str("al")),
@@ -127,6 +142,10 @@ fn shapes(x: &E, k: &E, k2: &E) -> Vec<E> {
         E::and(E::and(x.clone(), k.clone()), k2.clone()),
         E::or(E::and(k.clone(), x.clone()), k2.clone()),
         E::bin(BinOp::Eq, x.clone(), k.clone()),
+        // projection past a nested record / a set that holds the operand
+        E::bin(BinOp::Eq, E::attr(E::Rec(vec![("o".into(), E::Rec(vec![("a".into(), x.clone())])), ("b".into(), E::Long(1))]), "b"), E::Long(1)),
+        E::bin(BinOp::Eq, E::attr(E::Rec(vec![("a".into(), E::Set(vec![x.clone()])), ("b".into(), E::Long(1))]), "b"), E::Long(1)),
+        E::has(E::Rec(vec![("a".into(), x.clone())]), "zz"),
     ]
 }
 
@@ -198,7 +217,24 @@ fn sigmas(u: &Unk) -> Vec<Sigma> {
             }
         }
         Unk::ContextAttr => {
-            for x in [Val::Long(0), Val::Long(1), Val::Long(3), Val::Long(i64::MAX), Val::Str("x".into())] {
+            let mut rec = BTreeMap::new();
+            rec.insert("f".to_string(), Val::Long(1));
+            for x in [
+                Val::Long(0),
+                Val::Long(1),
+                Val::Long(3),
+                Val::Long(i64::MAX),
+                Val::Str("x".into()),
+                // the unknown is untyped: any value is an admissible completion
+                Val::Bool(true),
+                Val::Bool(false),
+                Val::Rec(rec),
+                Val::Uid(ua()),
+                Val::Uid(uz()),
+                Val::set(vec![Val::Long(1)]),
+                Val::set(vec![]),
+                ip_val("10.0.0.0/8"),
+            ] {
                 out.push(Sigma { u: Some(x), ..none.clone() });
             }
         }
@@ -491,8 +527,8 @@ pub fn run(tier: Tier, replay_file: Option<&str>) -> i32 {
         ctx.sample(json!({"unknown": format!("{u:?}"), "policy": sets[sets.len() / 3].iter().map(|p| p.text(&st)).collect::<Vec<_>>(), "substitutions": sig.len()}));
     }
     ctx.finish(
-        "9 kinds of unknown input (principal/resource typed or untyped, whole context, one context attribute, one entity attribute, principal + context attribute, partial store) x policy sets of 1-2 policies whose bodies put an unknown-touching operand against a constant / erroring / non-boolean operand in 16 shapes (&&, ||, if in every position, !, record projection, has on record literal, set membership, ==) x all substitutions from typed 3-5 value domains (wrong-type values only for untyped unknowns); case = (unknown kind, policy set) and each substitution; all non-trivial",
-        json!({"tier": tier.name(), "unknown_kinds": 9, "shapes": 16}),
+        "9 kinds of unknown input (principal/resource typed or untyped, whole context, one context attribute, one entity attribute, principal + context attribute, partial store) x policy sets of 1-2 policies whose bodies put an unknown-touching operand against a constant / erroring / non-boolean operand in 19 shapes (&&, ||, if in every position, !, record projection, has on record literal, set membership, ==) x all substitutions from typed 3-5 value domains (wrong-type values only for untyped unknowns); case = (unknown kind, policy set) and each substitution; all non-trivial",
+        json!({"tier": tier.name(), "unknown_kinds": 9, "shapes": 19}),
         &["the fully concrete response is computed by the real authorizer AND the reference authorizer; both must agree"],
         true,
     )
